@@ -427,9 +427,14 @@ async fn pipeline(srv: &Server, rng: &mut Rng, cases: u64, tag: &str) {
 /// one read (variant 0: a 1500-byte key, larger than the server's read chunk; variant 1: header and arguments written as two
 /// segments; variant 2: whole commands).  max_burst 1000, 1 per 3600 s: command i must be answered allowed, remaining 999 - i.
 async fn long_session(srv: &Server, tag: &str) {
-    for variant in 0..3u64 {
-        let n = 300usize;
-        let key = if variant == 0 { format!("{tag}long{}", "k".repeat(1500)) } else { format!("{tag}long{variant}") };
+    for variant in 0..4u64 {
+        // variant 3: every command is EXACTLY as long as the server's read chunk (1024 bytes)
+        let n = if variant == 3 { 40usize } else { 300usize };
+        let key = if variant == 0 { format!("{tag}long{}", "k".repeat(1500)) } else if variant == 3 {
+            let mut k = format!("{tag}long3");
+            loop { let probe = LReq { key: k.clone(), b: 1000, count: 1, period: 3600, q: Some(1) }; let l = resp_cmd(&probe, 0).len(); if l >= 1024 { break; } k.push_str(&"p".repeat((1024 - l).min(if 1024 - l > 8 { 1024 - l - 4 } else { 1 }))); }
+            k
+        } else { format!("{tag}long{variant}") };
         let r = LReq { key, b: 1000, count: 1, period: 3600, q: Some(1) };
         let mut first_bad: i64 = -1;
         let mut bad = String::from("null");
@@ -437,7 +442,7 @@ async fn long_session(srv: &Server, tag: &str) {
         if let Ok(mut s) = TcpStream::connect(("127.0.0.1", srv.redis)).await {
             let _ = s.set_nodelay(true);
             for i in 0..n {
-                let raw = resp_cmd(&r, i as u64);
+                let raw = resp_cmd(&r, if variant == 3 { 0 } else { i as u64 });
                 let ok = if variant == 1 {
                     let cut = 4 + (i % 9);            // inside the command, after the array header
                     let a = s.write_all(&raw[..cut]).await.is_ok(); let _ = s.flush().await;
@@ -456,7 +461,7 @@ async fn long_session(srv: &Server, tag: &str) {
                 answered += 1;
             }
         } else { first_bad = 0; bad = "{\"broken\":\"connect\"}".into(); }
-        println!("{{\"mode\":\"long\",\"variant\":{variant},\"n\":{n},\"answered_correctly\":{answered},\"first_bad\":{first_bad},\"bad_wire\":{bad}}}");
+        println!("{{\"mode\":\"long\",\"variant\":{variant},\"cmd_bytes\":{},\"n\":{n},\"answered_correctly\":{answered},\"first_bad\":{first_bad},\"bad_wire\":{bad}}}", resp_cmd(&r, 0).len());
     }
 }
 
@@ -464,8 +469,12 @@ async fn long_session(srv: &Server, tag: &str) {
 /// 1000 ms on that connection, then one more request: the decision must be the library's for the time the request ARRIVES.
 async fn idle(srv: &Server, rounds: u64, tag: &str) {
     for c in 0..rounds {
-        for proto in 0..3u64 {
-            let r = LReq { key: format!("{tag}idle{c}_{proto}"), b: 2, count: 10, period: 3, q: Some(1) };
+        for proto in 0..4u64 {
+            // proto 3: RESP again, but the first bytes of the fourth command are written BEFORE the idle gap and the rest after it:
+            // the request exists - and is stamped - when it is complete
+            let split = proto == 3;
+            let proto = if split { 2 } else { proto };
+            let r = LReq { key: format!("{tag}idle{c}_{proto}{}", if split { "s" } else { "" }), b: 2, count: 10, period: 3, q: Some(1) };
             let mut ws: Vec<Wire> = Vec::new();
             let t0 = Instant::now();
             let mut first3_ms: u128 = 0;
@@ -474,8 +483,14 @@ async fn idle(srv: &Server, rounds: u64, tag: &str) {
                     if let Ok(mut s) = TcpStream::connect(("127.0.0.1", srv.redis)).await {
                         let _ = s.set_nodelay(true);
                         for i in 0..4 {
-                            if i == 3 { first3_ms = t0.elapsed().as_millis(); tokio::time::sleep(Duration::from_millis(1000)).await; }
-                            if s.write_all(&resp_cmd(&r, i)).await.is_err() { ws.push(Wire::Broken("write failed".into())); break; }
+                            let raw = resp_cmd(&r, i);
+                            let mut from = 0usize;
+                            if i == 3 {
+                                first3_ms = t0.elapsed().as_millis();
+                                if split { from = 9; if s.write_all(&raw[..from]).await.is_err() { ws.push(Wire::Broken("write failed".into())); break; } let _ = s.flush().await; }
+                                tokio::time::sleep(Duration::from_millis(1000)).await;
+                            }
+                            if s.write_all(&raw[from..]).await.is_err() { ws.push(Wire::Broken("write failed".into())); break; }
                             let mut buf = Vec::new(); let mut tmp = [0u8; 512];
                             let w = loop {
                                 if let Some(w) = parse_resp_reply(&buf) { break w; }
@@ -528,7 +543,7 @@ async fn idle(srv: &Server, rounds: u64, tag: &str) {
                     }
                 }
             }
-            println!("{{\"mode\":\"idle\",\"round\":{c},\"proto\":{proto},\"first3_ms\":{first3_ms},\"wires\":[{}]}}", ws.iter().map(|w| w.json()).collect::<Vec<_>>().join(","));
+            println!("{{\"mode\":\"idle\",\"round\":{c},\"proto\":{proto},\"split\":{split},\"first3_ms\":{first3_ms},\"wires\":[{}]}}", ws.iter().map(|w| w.json()).collect::<Vec<_>>().join(","));
         }
     }
 }
@@ -579,6 +594,17 @@ async fn poison(srv: &Server, rng: &mut Rng, cases: u64, tag: &str) {
                 let w = send(srv, proto, &r, rng.below(1000)).await;
                 prefix.push(format!("{{\"what\":{:?},\"wire\":{}}}", format!("valid request #{round} on proto {proto} with a hostile key of {} bytes (max_burst 1: #1 and #2 are denials)", key.len()), w.json()));
             }
+        }
+        // connections reset by the client while they still wait in the accept queue (SO_LINGER 0 + close straight after connect)
+        if c % 2 == 0 {
+            let mut n_rst = 0;
+            for port in [srv.redis, srv.http, srv.grpc] {
+                for _ in 0..40 {
+                    if let Ok(st) = TcpStream::connect(("127.0.0.1", port)).await { let _ = st.set_linger(Some(Duration::from_secs(0))); drop(st); n_rst += 1; }
+                }
+            }
+            tokio::time::sleep(Duration::from_millis(20)).await;
+            prefix.push(format!("{{\"what\":\"{n_rst} connections (40 per port: RESP, HTTP, gRPC) opened and reset at once (SO_LINGER 0, close)\",\"wire\":{{\"err\":\"none expected\"}}}}"));
         }
         // a slow client: ONE RESP connection fed several commands one byte per write; every command must be answered on it
         let slow = {
